@@ -2,7 +2,7 @@
    is its coefficient function k |-> coefn p k (= p[k]); a well-formed stored
    polynomial has distinct powers and no zero coefficient; evaluation is the sum
    of c * v^k.  Definitions only. *)
-From Coq Require Import List Bool ZArith QArith Qcanon Qpower.
+From Coq Require Import List Bool ZArith QArith Qcanon Qpower Permutation.
 From AL Require Import Base.CaseLib C07.Model.
 Import ListNotations.
 Open Scope Qc_scope.
@@ -35,6 +35,15 @@ Definition dcoef (p : poly) (k : Z) : Qc := zq (k + 1) * coefn p (k + 1).
 
 (* interpolation data with distinct abscissae *)
 Definition distinct_x (pts : list (Qc * Qc)) : Prop := NoDup (map fst pts).
+
+(* a hash of the polynomial is any function of the SET of its (power, coefficient) items *)
+Definition perm_invariant (H : list (Z * Qc) -> Z) : Prop := forall l l', Permutation l l' -> H l = H l'.
+
+(* the Lagrange interpolation formula: sum_j y_j prod_{x_k <> x_j} (t - x_k) / (x_j - x_k) *)
+Definition lag_basis (xs : list Qc) (xj t : Qc) : Qc :=
+  fold_right (fun xk acc => (if Qc_eqb xj xk then 1 else (t - xk) / (xj - xk)) * acc) 1 xs.
+Definition lag_spec (pts : list (Qc * Qc)) (t : Qc) : Qc :=
+  fold_right (fun pt acc => snd pt * lag_basis (map fst pts) (fst pt) t + acc) 0 pts.
 
 (* ---- boolean versions used by the case checkers *)
 Fixpoint nodupb (l : list Z) : bool :=
